@@ -80,17 +80,16 @@ class IgnoreDirectiveParser:
         """Project-relative spelling of a path, however it was given.
 
         Patterns such as ``src/legacy/`` are written relative to the project root; a target
-        spelled relative to another working directory (``legacy/old.py`` from ``src``) or
-        through ``..`` must be judged by the same project-relative path.
+        spelled relative to another working directory (``legacy/old.py`` from ``src``), through
+        ``..`` (``<root>/tests/../src/legacy/old.py``) or through a symlink must be judged by the
+        same project-relative path.
         """
-        try:
-            return str(file_path.relative_to(self.project_root))
-        except ValueError:
-            pass
-        try:
+        with suppress(ValueError, OSError):
             return str(file_path.resolve().relative_to(self.project_root.resolve()))
-        except (ValueError, OSError):
-            return str(file_path)
+        # does not resolve into the project (e.g. a path that does not exist): lexical fallback
+        with suppress(ValueError):
+            return str(file_path.relative_to(self.project_root))
+        return str(file_path)
 
     def has_file_ignore(self, file_path: Path, rule_id: str | None = None) -> bool:
         """Check for file-level ignore directive in first 10 lines."""
